@@ -36,6 +36,23 @@ let handle (toks : string list) : string =
            "ok" ^ String.concat "" (List.map (fun (k, m) ->
              Printf.sprintf " %s:%s:%s" (match k with Nearby -> "nearby" | Faraway -> "faraway")
                (hex_of_bytes m.m_id) (string_of_z m.m_meters)) l))
+  | "regsel" :: name :: key :: ops ->
+      (* is the hook <name> among getQueueCandidates' candidates for a SET on <key> after the history <ops>
+         S,<name>,<chan>,<key>,<detect_nil>,<equal_prev>   SETCHAN / SETHOOK of a roaming fence
+         D,<name>,<chan>   DELCHAN / DELHOOK        P,<prefix>,<chan>   PDELCHAN / PDELHOOK <prefix>*        F   FLUSHDB *)
+      let rec is_prefix p l = match p, l with
+        | [], _ -> true
+        | x :: p', y :: l' -> x = y && is_prefix p' l'
+        | _ -> false in
+      let op t = match String.split_on_char ',' t with
+        | ["S"; n; ch; k; dn; eq] -> RSet (roam_hook (bytes_of_hex n) (ch = "1") (bytes_of_hex k) (dn = "1"), eq = "1")
+        | ["D"; n; ch] -> RDel (bytes_of_hex n, ch = "1")
+        | ["P"; pre; ch] -> let pb = bytes_of_hex pre in RPDel ((fun n -> is_prefix pb n), ch = "1")
+        | ["F"] -> RFlush
+        | _ -> failwith "bad registry op" in
+      let r = reg_run (List.map op ops) in
+      let q = Some { minx = Z0; miny = Z0; maxx = Z0; maxy = Z0 } in
+      if selected r (bytes_of_hex name) (bytes_of_hex key) q q then "1" else "0"
   | ["isglob"; pat] -> if is_glob (bytes_of_hex pat) then "1" else "0"
   | ["round"; d] -> string_of_z (round_mm (z_of_string d))
   | "scan" :: mid :: scan :: ids ->
